@@ -8,7 +8,7 @@ CONSTANTS
   MaxUnits = 0
   ProtoInsts = {2}
   ProtoSpells = {1, 2, 8, 19}
-  ProtoLocIds = {1, 2, 3, 4, 5, 6}
+  ProtoLocIds = {1, 2, 3, 4, 5}
   MaxDepth = 3
   EmitOn = TRUE
 INIT InitProto
